@@ -257,9 +257,44 @@ class C17(Prop):
                 "layout": layout, "modules": FILE_MODULES, "probes": probes, "keep": keep, "keep_dict": 64,
                 "keep_bytes": 24}
 
+    STATIC_SAMPLES = {"integer": ["0", "1", "7", "4096", "16777223", "(-1)", "9223372036854775807"],
+                      "bytes": ['"KERNEL32.dll"', '".text"', '"ExitProcess"', '"12"', '"<init>"',
+                                '"Lcom/android/tools/ir/server/AppInfo;"', '""'],
+                      "float": ["0.5", "2.0"], "boolean": ["true", "false"], "regex": ["/.*/", "/K.*/"]}
+
+    def gen_static_cases(self, rng):
+        """every static function of every module, each accepted argument list, sample arguments: the value a rule
+        gets must be of the declared return kind (observed through console.log: a defined value that cannot be logged
+        is a boolean / regex where an integer, float or byte string is declared)"""
+        by_kind = {}
+        for a in self.assets:
+            by_kind.setdefault(a[2], []).append(a)
+        pick = lambda k: sorted(by_kind[k], key=lambda a: -len(a[1]))[0][0]
+        target = {"pe": pick("pe"), "elf": pick("elf"), "macho": pick("fat"), "dex": pick("dex")}
+        cases = []
+        for m, _ in mt.MODULES:
+            if m == "console":
+                continue
+            probes = []
+            for name, args, ret in self.info["static_functions"][m]:
+                if ret["t"] not in ("integer", "bytes", "float"):
+                    continue
+                for alt in (args or [[]]):
+                    for k in range(3):
+                        vals = [rng.choice(self.STATIC_SAMPLES[a["t"]]) for a in alt]
+                        use = "%s.%s(%s)" % (m, name, ", ".join(vals))
+                        probes.append({"tag": "s%d" % len(probes), "module": m, "text": use, "ret": ret["t"]})
+                        if not alt:
+                            break
+            if probes:
+                cases.append({"op": "static", "asset": target.get(m, target["pe"]), "edits": [], "process_memory": False,
+                              "layout": None, "modules": ["pe"], "probes": probes, "keep": 1, "keep_dict": 1,
+                              "keep_bytes": 4, "fn_args": [], "kind": "static", "mutation": "pristine"})
+        return cases
+
     def generate(self, ctx, rng, n):
         self.ensure()
-        cases = [{"op": "types"}]
+        cases = [{"op": "types"}] + self.gen_static_cases(rng.fork("static"))
         fmt = [a for a in self.assets if a[2] != "other"]
         other = [a for a in self.assets if a[2] == "other"]
         groups = mg.group_assets(fmt)
@@ -307,6 +342,10 @@ class C17(Prop):
         outs = core.harness_run(ctx.binp, "c17", hc, timeout=1200)
         for c, o in zip(cases, outs):
             if c.get("op") == "types" or not isinstance(o, dict) or "dumps" not in o:
+                continue
+            if c.get("op") == "static":
+                ctx.count("static function probes", len(c["probes"]))
+                ctx.count("static function probes defined", sum(1 for po in o["probes"] if po.get("defined")))
                 continue
             ctx.count("kind=" + c["kind"])
             ctx.count("mutation=" + c["mutation"])
@@ -445,6 +484,14 @@ class C17(Prop):
             return (ok, True, 0)
         if not isinstance(out, dict) or "dumps" not in out:
             return (False, False, 0)       # crash / panic while scanning
+        if case.get("op") == "static":
+            rejected = [p["text"] for p, po in zip(case["probes"], out["probes"]) if not po["compiled"]]
+            wrong = [p["text"] for p, po in zip(case["probes"], out["probes"])
+                     if po["compiled"] and po.get("defined") and not po.get("logs")]
+            if rejected or wrong:
+                case["_problems"] = {"rejected by the compiler although the declared signature accepts it": rejected[:5],
+                                     "defined but not of the declared (loggable) kind": wrong[:5]}
+            return (not rejected, not wrong, 0)
         problems = self.py_checks(case, out)
         if problems:
             case["_problems"] = problems[:5]
@@ -453,6 +500,9 @@ class C17(Prop):
         return "C17_case %s %s %s" % (dumps, probes, gbool(not problems))
 
     def nontrivial(self, case, out):
+        if case.get("op") == "static":
+            return json.dumps([p["text"] for p in case["probes"]]) if isinstance(out, dict) and any(
+                po.get("defined") for po in out.get("probes", [])) else None
         if case.get("op") == "types" or not isinstance(out, dict) or "dumps" not in out:
             return None
         published = any(len(d.get("o", [])) > 1 for d in out["dumps"].values())
@@ -462,6 +512,9 @@ class C17(Prop):
         return None
 
     def sample(self, case, out):
+        if case.get("op") == "static":
+            return {"static": [[p["text"], po.get("compiled"), po.get("defined"), (po.get("logs") or [None])[0]]
+                               for p, po in zip(case["probes"], (out or {}).get("probes", []))][:8]}
         if case.get("op") == "types":
             return {"case": case, "modules": sorted((out or {}).get("types", {}))}
         o = out or {}
